@@ -57,6 +57,25 @@ var (
 	trimDeps = map[uint8]uint64{0: 3, 1: 4, 2: 5, 3: 6, 4: 7, 5: 8}
 )
 
+var switchLockup = os.Getenv("C06_SWITCH_LOCKUP") != "" // experiment: head switches in lockup chains too
+
+var trimStaggered = map[uint8]uint64{0: 3, 1: 4, 2: 5, 3: 6, 4: 7, 5: 8}
+
+// setTrimDepths installs the trim schedule of a chain (called while no node is running): staggered = one depth per
+// denomination as on mainnet (scaled), flat = all six denominations due at the same depth, so that the six
+// TrimBlock goroutines of a block read the same created-keys record.
+func setTrimDepths(kind string) {
+	m, t := map[uint8]uint64{}, map[uint8]uint64{}
+	for k, v := range trimStaggered {
+		if kind == "flat" {
+			v = 3
+		}
+		m[k], t[k] = v, v
+	}
+	trimDeps = m
+	types.TrimDepths = t
+}
+
 const (
 	sigF5       = "trim-and-spend-same-block:double-removal"
 	sigRootScan = "utxo-root-differs-from-db-scan"
@@ -255,21 +274,21 @@ func newNode(kind string, tmp string, idx int, a *actors) (*node, error) {
 	case "memorydb":
 		// memorydb.Database.Location() returns nil, so a block re-read from it (block cache miss) decodes every
 		// in-zone address as external; a production store is opened with the node location. Give it one.
-		n.db = rawdb.NewDatabase(locMem{memorydb.New(logger)})
+		n.db = rawdb.NewDatabase(&guardKV{locMem{memorydb.New(logger)}, kind})
 	case "leveldb":
 		n.dir = filepath.Join(tmp, fmt.Sprintf("ldb%d", idx))
 		d, err := leveldb.New(n.dir, 16, 16, "", false, logger, loc)
 		if err != nil {
 			return nil, err
 		}
-		n.db = rawdb.NewDatabase(d)
+		n.db = rawdb.NewDatabase(&guardKV{d, kind})
 	case "pebble":
 		n.dir = filepath.Join(tmp, fmt.Sprintf("peb%d", idx))
 		d, err := pebble.New(n.dir, 16, 16, "", false, logger, loc)
 		if err != nil {
 			return nil, err
 		}
-		n.db = rawdb.NewDatabase(d)
+		n.db = rawdb.NewDatabase(&guardKV{d, kind})
 	}
 	cb, qi := a.quaiAddrs[1], a.qiAddrs[5]
 	n.opts = core.VerifZoneOptions{Location: loc, QuaiCoinbase: cb, QiCoinbase: qi, GenesisTime: 1000}
@@ -589,7 +608,9 @@ func processOnce(n *node, block *types.WorkObject, cfg string) (o *procObs) {
 type ChainSpec struct {
 	ID      uint64   `json:"id"`
 	Seed    uint64   `json:"seed"`
-	Kind    string   `json:"kind"` // f5 | clean | random | lockup | recreate
+	Kind    string   `json:"kind"` // f5 | clean | random | lockup | recreate | storm | chained
+	Depths  string   `json:"depths,omitempty"` // trim schedule of the chain: "" = staggered {3..8}, "flat" = every denomination 3 blocks
+	Storm   int      `json:"storm,omitempty"`  // kind storm: small outputs delivered per trimmable denomination and block
 	Len     int      `json:"len"`
 	Primary int      `json:"primary"` // which backend assembles
 	Kinds   []string `json:"backends"`
@@ -631,9 +652,9 @@ type chainResult struct {
 	broken   string
 }
 
-var gomax = []int{1, 4, 16}
+var gomax = []int{1, 4, 16, 2, 8}
 
-const corpusChains = 4 // chains 1..4 are the fixed corpus
+const corpusChains = 7 // chains 1..7 are the fixed corpus
 
 // where the wall time goes (reported as notes; not part of any verdict)
 var spent = map[string]time.Duration{}
@@ -645,7 +666,7 @@ func timed(what string, f func()) {
 }
 
 func failCase(sig, what string, spec ChainSpec, blockNo uint64, extra string) {
-	c := map[string]any{"id": spec.ID, "seed": spec.Seed, "kind": spec.Kind, "len": spec.Len, "primary": spec.Primary, "backends": spec.Kinds, "reps": spec.Reps, "at_block": blockNo, "detail": extra}
+	c := map[string]any{"id": spec.ID, "seed": spec.Seed, "kind": spec.Kind, "len": spec.Len, "primary": spec.Primary, "backends": spec.Kinds, "reps": spec.Reps, "depths": spec.Depths, "storm": spec.Storm, "at_block": blockNo, "detail": extra}
 	rep.Fail(sig, what, c)
 }
 
@@ -669,6 +690,7 @@ type scenario struct {
 	lockupTx   common.Hash
 	storeReady bool
 	rc         *recreate // re-creation script (recreate.go); nil: not played in this chain
+	chainedN   int       // blocks with intra-block Qi chains built so far (chained.go)
 }
 
 func (s *scenario) foreignQiEtx(to common.Address, den uint8, idx uint16) *types.Transaction {
@@ -718,6 +740,28 @@ func (s *scenario) inbound(blockNo uint64) types.Transactions {
 			add(s.foreignQiEtx(s.a.qiAddrs[1], 9, idx))
 		}
 		return out
+	case "storm":
+		// every block delivers Storm unlocked outputs of EACH trimmable denomination (and two big ones): from the
+		// height at which the deepest trim depth is due on, every block runs all six TrimBlock goroutines with
+		// Storm deletions each on the one block batch
+		for den := uint8(0); den <= types.MaxTrimDenomination; den++ {
+			for i := 0; i < s.spec.Storm; i++ {
+				add(s.foreignQiEtx(s.a.qiAddrs[r.Intn(len(s.a.qiAddrs))], den, idx))
+			}
+		}
+		for i := 0; i < 2; i++ {
+			add(s.foreignQiEtx(s.a.qiAddrs[r.Intn(len(s.a.qiAddrs))], uint8(8+r.Intn(4)), idx))
+		}
+		return out
+	case "chained":
+		// big coins to build intra-block chains from, a few small ones so that trimming goes on as well
+		for i := 0; i < 3; i++ {
+			add(s.foreignQiEtx(s.a.qiAddrs[r.Intn(len(s.a.qiAddrs))], uint8(8+r.Intn(5)), idx))
+		}
+		for i := r.Intn(3); i > 0; i-- {
+			add(s.foreignQiEtx(s.a.qiAddrs[r.Intn(len(s.a.qiAddrs))], uint8(r.Intn(7)), idx))
+		}
+		return out
 	case "clean":
 		// only denominations above MaxTrimDenomination are ever spent; small ones are created and left to be trimmed
 		n := r.Intn(4)
@@ -726,6 +770,16 @@ func (s *scenario) inbound(blockNo uint64) types.Transactions {
 			add(s.foreignQiEtx(s.a.qiAddrs[r.Intn(len(s.a.qiAddrs))], den, idx))
 		}
 		return out
+	}
+	if r.Chance(20) {
+		// burst: several unlocked outputs of every trimmable denomination at once (concurrent trimming later on)
+		k := 2 + r.Intn(5)
+		for den := uint8(0); den <= types.MaxTrimDenomination; den++ {
+			for i := 0; i < k; i++ {
+				add(s.foreignQiEtx(s.a.qiAddrs[r.Intn(len(s.a.qiAddrs))], den, idx))
+			}
+		}
+		rep.Count("inbound_burst_of_small_outputs")
 	}
 	n := r.Pick(2, 3, 3, 2, 1)
 	for i := 0; i < n; i++ {
@@ -909,11 +963,13 @@ func (s *scenario) poolTxs(n *node, content []entry, nextNo uint64) []*types.Tra
 			}
 		}
 		return txs
-	case "clean":
+	case "clean", "storm":
 		if c, ok := big6(); ok && r.Chance(70) {
 			mk([]coin{c}, []uint8{c.e.utxo.Denomination - 1})
 		}
 		return txs
+	case "chained":
+		return txs // the Qi transactions of these chains are put into the block by the "foreign miner" (chained.go)
 	}
 	nTx := r.Pick(3, 4, 3)
 	for i := 0; i < nTx; i++ {
@@ -1058,7 +1114,15 @@ func (s *scenario) poolTxs(n *node, content []entry, nextNo uint64) []*types.Tra
 
 // ---------------- running one chain ----------------
 
-func coqBlk(ops []string, cands []string, trimmed []int, content [][2]int, size uint64, rootok bool) string {
+func coqDb(content [][2]int) string {
+	ct := make([]string, len(content))
+	for i, c := range content {
+		ct[i] = fmt.Sprintf("(%d,%d)", c[0], c[1])
+	}
+	return hlib.CoqList(ct)
+}
+
+func coqBlk(ops []string, cands []string, trimmed []int, content [][2]int, size uint64, rootok bool, undone string) string {
 	tr := make([]string, len(trimmed))
 	for i, t := range trimmed {
 		tr[i] = fmt.Sprint(t)
@@ -1067,7 +1131,7 @@ func coqBlk(ops []string, cands []string, trimmed []int, content [][2]int, size 
 	for i, c := range content {
 		ct[i] = fmt.Sprintf("(%d,%d)", c[0], c[1])
 	}
-	return fmt.Sprintf("mkBlk %s %s %s %s %d %s", hlib.CoqList(ops), hlib.CoqList(cands), hlib.CoqList(tr), hlib.CoqList(ct), size, hlib.CoqBool(rootok))
+	return fmt.Sprintf("mkBlk %s %s %s %s %d %s %s", hlib.CoqList(ops), hlib.CoqList(cands), hlib.CoqList(tr), hlib.CoqList(ct), size, hlib.CoqBool(rootok), undone)
 }
 
 func runChain(spec ChainSpec, a *actors, tmp string) (res chainResult) {
@@ -1077,6 +1141,19 @@ func runChain(spec ChainSpec, a *actors, tmp string) (res chainResult) {
 			failCase(sigPanic, fmt.Sprintf("panic while running chain: %v", r), spec, 0, string(debug.Stack()))
 		}
 	}()
+	setTrimDepths(spec.Depths)
+	guardTake()
+	checkGuard := func(where string, no uint64) {
+		hits, pairs, backends := guardTake()
+		if hits == 0 {
+			return
+		}
+		var ps []string
+		for _, k := range hlib.SortedKeys(pairs) {
+			ps = append(ps, fmt.Sprintf("%s (%d times)", k, pairs[k]))
+		}
+		failCase(sigBatchConc, fmt.Sprintf("%s, block %d: one database batch was inside its mutating methods on two goroutines at once %d times (ethdb.Batch: \"A batch cannot be used concurrently\"; the goroutines Finalize starts per denomination share the block batch and must serialise every access): %s; backends %v. Records of an unsynchronised batch buffer are lost in that situation: what the block writes then depends on the schedule", where, no, hits, strings.Join(ps, "; "), hlib.SortedKeys(backends)), spec, no, where)
+	}
 	var nodes []*node
 	for i, k := range spec.Kinds {
 		n, err := newNode(k, tmp, int(spec.ID)*10+i, a)
@@ -1108,6 +1185,8 @@ func runChain(spec ChainSpec, a *actors, tmp string) (res chainResult) {
 	ix := &indexer{keys: map[string]int{}, elems: map[common.Hash]int{}}
 	var backlog types.Transactions
 	parentContent := map[string]entry{} // primary's content before the block
+	var hist []histEntry                // per appended block: block, content, recorded double removals
+	var prevScan []entry
 
 	for step := 0; step < spec.Len; step++ {
 		var block *types.WorkObject
@@ -1121,6 +1200,25 @@ func runChain(spec ChainSpec, a *actors, tmp string) (res chainResult) {
 			return
 		}
 		no := block.NumberU64(common.ZONE_CTX)
+		if spec.Kind == "chained" && step >= 2 {
+			// the block of a foreign miner: Qi transactions spending outputs created earlier in the same block
+			if ctxs, fees, shape := sc.chainedTxs(prim, prevScan, no); len(ctxs) > 0 {
+				var nb *types.WorkObject
+				var rerr error
+				timed("reseal", func() { nb, rerr = prim.z.VerifC06Reseal(block, ctxs, fees) })
+				if rerr != nil {
+					rep.Count("reseal_failed")
+					rep.Note(fmt.Sprintf("chain %d block %d: block with intra-block Qi chain (%s) not built: %s", spec.ID, no, shape, errClass(rerr)))
+					if verbose {
+						fmt.Fprintln(os.Stderr, "reseal:", rerr)
+					}
+				} else {
+					block = nb
+					rep.Count("block_with_intra_block_qi_chain_" + shape)
+				}
+			}
+		}
+		checkGuard("assembling", no)
 		rep.Evaluations++
 		// ---- determinism monitor: the same block on the same parent state, several times, each backend ----
 		var ref *procObs
@@ -1178,6 +1276,7 @@ func runChain(spec ChainSpec, a *actors, tmp string) (res chainResult) {
 			}
 		}
 		runtime.GOMAXPROCS(runtime.NumCPU())
+		checkGuard("re-executing Process", no)
 		if primObs == nil || primObs.err != "" || primObs.validate != "" {
 			failCase(sigReject, fmt.Sprintf("block assembled by the worker fails re-execution on %s: %s %s", prim.name, primObs.err, primObs.validate), spec, no, prim.name)
 			res.broken = "own block rejected"
@@ -1224,6 +1323,7 @@ func runChain(spec ChainSpec, a *actors, tmp string) (res chainResult) {
 			}
 		}
 		res.nBlocks++
+		checkGuard("appending (SetCurrentHeader -> AppendBlock -> Process/Finalize)", no)
 		// ---- commitment monitors on every backend ----
 		var primScan []entry
 		var refScan string
@@ -1361,8 +1461,76 @@ func runChain(spec ChainSpec, a *actors, tmp string) (res chainResult) {
 		}
 		sort.Slice(content, func(i, j int) bool { return content[i][0] < content[j][0] })
 		rootok := muOf(primScan, nil) == block.UTXORoot()
-		res.blocks = append(res.blocks, coqBlk(coqOps, coqCands, trimmedIdx, content, rawdb.ReadUTXOSetSize(prim.db, block.Hash()), rootok))
+		blkTerm := func(undone string) string {
+			return coqBlk(coqOps, coqCands, trimmedIdx, content, rawdb.ReadUTXOSetSize(prim.db, block.Hash()), rootok, undone)
+		}
+		res.blocks = append(res.blocks, blkTerm("None"))
+		onlyUt := true
+		for _, op := range txOps {
+			if op.key[0] != 'u' {
+				onlyUt = false
+			}
+		}
 		parentContent = newParent
+		prevScan = primScan
+		he := histEntry{block: block, scan: primScan, dbl: map[string]int{}}
+		for _, n := range nodes {
+			he.dbl[n.name] = len(n.dbl)
+		}
+		hist = append(hist, he)
+		// outputs created AND spent inside this block (both undo records of the block list them)
+		{
+			sp, _ := rawdb.ReadSpentUTXOs(prim.db, block.Hash())
+			ck, _ := rawdb.ReadCreatedUTXOKeys(prim.db, block.Hash())
+			cks := map[string]bool{}
+			for _, k := range ck {
+				if len(k) == rawdb.UtxoKeyWithDenominationLength {
+					cks[string(k[:rawdb.UtxoKeyLength])] = true
+				}
+			}
+			both := 0
+			for _, u := range sp {
+				if cks[string(rawdb.UtxoKey(u.TxHash, u.Index))] {
+					both++
+				}
+			}
+			if both > 0 {
+				rep.Count("block_creates_and_spends_same_output")
+			}
+		}
+		// ---- head switches: the node goes back k blocks (real SetCurrentHeader rollback) and forward again; after each
+		// switch the head header must describe the database exactly. Every block in the chained corpus chain, now and
+		// then elsewhere (not in lockup chains: rollback of lockup records is C10's known finding F6) ----
+		if len(hist) >= 2 && (spec.Kind != "lockup" || switchLockup) && spec.Kind != "f5" {
+			do := spec.Kind == "chained" || (spec.Kind == "storm" && step%4 == 3) || rr.Chance(12) || os.Getenv("C06_SWITCH_LOCKUP") == "all"
+			if do {
+				k := 1 + rr.Intn(3)
+				if spec.Kind == "chained" {
+					k = 1 + step%3
+				}
+				if k > len(hist)-1 {
+					k = len(hist) - 1
+				}
+				var ok bool
+				var undone []entry
+				timed("headswitch", func() { ok, undone = headSwitch(nodes, prim, hist, k, spec) })
+				checkGuard("switching the head back and forward", no)
+				if undone != nil && onlyUt {
+					// the model rolls this block back too (Coq: rollback_block) and must arrive at the same content
+					uc := make([][2]int, 0, len(undone))
+					for _, e := range undone {
+						uc = append(uc, [2]int{ix.key(e.key), ix.elem(e.hash)})
+					}
+					sort.Slice(uc, func(i, j int) bool { return uc[i][0] < uc[j][0] })
+					res.blocks[len(res.blocks)-1] = blkTerm("(Some " + coqDb(uc) + ")")
+					rep.Count("block_rolled_back_in_model_too")
+				}
+				if !ok {
+					res.broken = "head switch failed"
+					return
+				}
+			}
+		}
 		// distribution
 		nCl := 0
 		for _, e := range primScan {
@@ -1631,10 +1799,7 @@ func setSchedule() {
 	params.ConversionLockPeriod = 4
 	params.CoinbaseEpochBlocks = 5 // must stay below the first unlock height (mainnet: 50000 < kick-in height + lock), else AddNewLock's tranche height is 0 = "no record"
 	params.LockupByteToBlockDepth = [4]uint64{4, 6, 8, 10}
-	types.TrimDepths = map[uint8]uint64{}
-	for k, v := range trimDeps {
-		types.TrimDepths[k] = v
-	}
+	setTrimDepths("")
 }
 
 func main() {
@@ -1683,6 +1848,12 @@ func main() {
 		specs = append(specs, ChainSpec{ID: 2, Seed: 2, Kind: "clean", Len: 20, Primary: 1, Kinds: allKinds, Reps: reps})
 		specs = append(specs, ChainSpec{ID: 3, Seed: 3, Kind: "lockup", Len: length, Primary: 2, Kinds: allKinds, Reps: reps})
 		specs = append(specs, ChainSpec{ID: 4, Seed: 4, Kind: "recreate", Len: 22, Primary: 0, Kinds: allKinds, Reps: reps})
+		// round 3: all six trim goroutines busy on the one block batch (staggered depths: from height 9 on; flat
+		// depths: from height 4 on, all six reading the same created-keys record), and a chain whose blocks contain
+		// Qi transactions spending outputs of the same block, rolled back and forth after every block
+		specs = append(specs, ChainSpec{ID: 5, Seed: 5, Kind: "storm", Len: 12, Primary: 1, Kinds: allKinds, Reps: 3, Storm: 15})
+		specs = append(specs, ChainSpec{ID: 6, Seed: 6, Kind: "storm", Len: 6, Primary: 2, Kinds: allKinds, Reps: 3, Depths: "flat", Storm: 25})
+		specs = append(specs, ChainSpec{ID: 7, Seed: 7, Kind: "chained", Len: 12, Primary: 0, Kinds: allKinds, Reps: 3})
 		r := hlib.NewRng(fl.Seed)
 		for i := 0; i < fl.N; i++ {
 			kind := "random"
@@ -1744,7 +1915,7 @@ func main() {
 			continue
 		}
 		term := fmt.Sprintf("Chain %d %s [\n  %s]", d.spec.ID, view, strings.Join(d.res.blocks, ";\n  "))
-		js := map[string]any{"id": d.spec.ID, "seed": d.spec.Seed, "kind": d.spec.Kind, "len": d.spec.Len, "primary": d.spec.Primary, "backends": d.spec.Kinds, "reps": d.spec.Reps, "blocks": d.res.nBlocks, "f5_blocks": d.res.f5Blocks}
+		js := map[string]any{"id": d.spec.ID, "seed": d.spec.Seed, "kind": d.spec.Kind, "len": d.spec.Len, "primary": d.spec.Primary, "backends": d.spec.Kinds, "reps": d.spec.Reps, "depths": d.spec.Depths, "storm": d.spec.Storm, "blocks": d.res.nBlocks, "f5_blocks": d.res.f5Blocks}
 		cw.Add(term, js)
 		rep.Sample(js)
 		rep.TracesValidated++
